@@ -222,12 +222,29 @@ def get_unescaped_str(string: str, qm: str) -> str:
     return "".join(out)
 
 
+def get_unescaped_bytes(value: bytes, qm: str) -> str:
+    out = []
+    for i in value.decode("latin-1"):
+        if i == qm:
+            out.append(f"\\{qm}")
+        elif ord(i) > 127:
+            out.append(f"\\x{ord(i):02x}")
+        else:
+            out.append(ascii(i)[1:-1])
+    return "".join(out)
+
+
 def unparse_Constant(node: Constant, qm: typing.Literal["'", '"']) -> unparse_gen_t:
     if node.value is ...:
         return "..."
     if isinstance(node.value, str):
         value = get_unescaped_str(node.value, qm)
         return f"{qm}{value}{qm}"
+    if isinstance(node.value, bytes):
+        # repr() chooses the quotation mark by itself,
+        # inside a f-string it has to be the given one
+        value = get_unescaped_bytes(node.value, qm)
+        return f"b{qm}{value}{qm}"
     if isinstance(node.value, (float, complex)):
         # repr() of an infinite float is the name `inf`, not a literal
         return repr(node.value).replace("inf", "1e309")
